@@ -147,12 +147,24 @@ def run_unit(unit, rng, ctx):
     n_spec = int(rng.integers(0, 3))
     spec = np.mod(rng.uniform(0, 1, size=(1, n_spec, 3)) + rng.normal(scale=0.01, size=(T, n_spec, 3)), 1)
     # atom table: (name, kind, cluster, satellite index) in shuffled order
-    atoms = [(c_name, 'c', c, -1) for c in range(n_cl)] + [(s_name, 's', c, j) for c in range(n_cl) for j in range(4)] + [('Li', 'x', i, -1) for i in range(n_spec)]
+    # unbonded atoms of the SATELLITE species (e.g. free S next to PS4 units): at least 2.2 bond lengths from every
+    # centre at all times (they drift with the clusters), listed anywhere in the atom table
+    free = []
+    if not large:
+        for _ in range(int(rng.integers(0, 4))):
+            for _try in range(60):
+                p0 = rng.uniform(0, 1, size=3)
+                if geom.min_image(m, p0[None, :], centres0)[0].min() >= 2.2 * bond * 1.06 and (not free or geom.min_image(m, p0[None, :], np.array(free))[0].min() >= 0.8):
+                    free.append(p0)
+                    break
+    free_tr = (np.array(free)[None, :, :] + walk) if free else np.empty((T, 0, 3))
+    ctx.count('unbonded_atoms_of_the_satellite_species', len(free))
+    atoms = [(c_name, 'c', c, -1) for c in range(n_cl)] + [(s_name, 's', c, j) for c in range(n_cl) for j in range(4)] + [('Li', 'x', i, -1) for i in range(n_spec)] + [(s_name, 'f', i, -1) for i in range(len(free))]
     order = rng.permutation(len(atoms))
     atoms = [atoms[i] for i in order]
     coords = np.empty((T, len(atoms), 3))
     for idx, (nm, kd, c, j) in enumerate(atoms):
-        coords[:, idx] = cent[:, c] if kd == 'c' else (sat[:, c, j] if kd == 's' else spec[:, c])
+        coords[:, idx] = cent[:, c] if kd == 'c' else (sat[:, c, j] if kd == 's' else (free_tr[:, c] if kd == 'f' else spec[:, c]))
     coords = np.mod(coords, 1)
     traj = gen.make_trajectory(m, gen.species_objects([a[0] for a in atoms], rng=rng), coords, time_step=1e-15)
     what = f'{kind}{"/rot" if rot else ""} clusters={n_cl} T={T} bond={bond:.3f} rotation={mode}'
